@@ -607,7 +607,7 @@ func c11Arch(c *Ctx, p *Prog) {
 					// involves the raw view?
 					for _, a := range cl.Call.Args {
 						for _, at := range origins(a) {
-							if at.Kind == "call" && strings.Contains(strings.ToLower(at.Name), "rawaccess") {
+							if cl0, isCl := at.V.(*ssa.Call); at.Kind == "call" && isCl && isRawAccessFn(staticCallee(cl0.Common())) {
 								isCopy = true
 							}
 						}
